@@ -1059,6 +1059,12 @@ func builtinNoOtherKeys(env *lisp.LEnv, args *lisp.LVal) *lisp.LVal {
 	}
 	// NB these aren't normal functions - they aren't looking for an array of args
 	return newValidator(lisp.Formals("input"), func(env *lisp.LEnv, input *lisp.LVal) *lisp.LVal {
+		// input.Map() below panics ("not sorted-map: int") on anything else,
+		// and s:no-other-keys is reachable under s:any where no earlier
+		// constraint has checked the type -- same guard as s:when.
+		if input.Type != lisp.LSortMap {
+			return lisp.ErrorConditionf(WrongType, "Input is not sorted map")
+		}
 		allowedKeys := make(map[string]bool)
 		for _, c := range constraints {
 			val := applyConstraint(env, c, input)
